@@ -117,6 +117,7 @@ fn handle_with(op: &str, a: &[&str], pf: Preferences) -> Option<String> {
                 COUNTER.fetch_add(1, Ordering::SeqCst)
             ));
             let _ = std::fs::remove_dir_all(&dir);
+            let _cleanup = DirGuard(dir.clone()); // also removes the directory when classgroup() panics
             let mut p = pf;
             p.outdir = Some(dir.clone());
             let g = classgroup::classgroup(&d, &p, tp.as_ref());
@@ -308,6 +309,13 @@ fn handle_with(op: &str, a: &[&str], pf: Preferences) -> Option<String> {
             Some(out)
         }
         _ => None,
+    }
+}
+
+struct DirGuard(std::path::PathBuf);
+impl Drop for DirGuard {
+    fn drop(&mut self) {
+        let _ = std::fs::remove_dir_all(&self.0);
     }
 }
 
